@@ -53,6 +53,7 @@ class RefPolicy(Policy):
 
 
 class RefInterp(Interp):
+    emit_hash = True
     """Python semantics over the abstract domain for probe sources."""
 
     def e_Name(self, node, cfg, out):
@@ -259,6 +260,67 @@ class RefInterp(Interp):
                     res.append(c1.emit(("setitem", base, idx, val)))
             return res
         return super().assign(tgt, val, cfg, out)
+
+    def s_AnnAssign(self, stmt, cfg):
+        """Module/class level (PEP 526): the value is evaluated and assigned first, then the annotation is evaluated;
+        only simple names are recorded in __annotations__.  (In function scope annotations are never evaluated.)"""
+        out = Out()
+        cs = [cfg]
+        if stmt.value is not None:
+            cs = []
+            for c, v in self.ev(stmt.value, cfg, out):
+                cs.extend(self.assign(stmt.target, v, c, out))
+        for c in cs:
+            for c1, ann in self.ev(stmt.annotation, c, out):
+                if isinstance(stmt.target, ast.Name):
+                    c1 = c1.emit(("annotate", stmt.target.id, ann))
+                out.add("normal", c1)
+        return out
+
+    def e_Dict(self, node, cfg, out):
+        # a `**x` entry needs a mapping: a list/tuple display is a TypeError (after it was evaluated)
+        for k, v in zip(node.keys, node.values):
+            if k is None and isinstance(v, (ast.List, ast.Tuple, ast.Set)):
+                cur = [(cfg, [])]
+                for k2, v2 in zip(node.keys, node.values):
+                    nxt = []
+                    for c, pend in cur:
+                        if k2 is not None:
+                            for c1, kv in self.ev(k2, c, out):
+                                nxt.extend((c2, pend + [kv]) for c2, _ in self.ev(v2, c1, out))
+                        else:
+                            for pk in pend:  # the run of plain pairs before a `**` entry is built (and its keys hashed) first
+                                c = c.emit(("hash", pk))
+                            nxt.extend((c1, []) for c1, _ in self.ev(v2, c, out))
+                    cur = nxt
+                    if v2 is v:
+                        break
+                for c, _ in cur:
+                    out.add("raise", c.set("$exc", ExcV("TypeError", "not a mapping")))
+                return []
+        return super().e_Dict(node, cfg, out)
+
+    def e_Call(self, node, cfg, out):
+        # f(k=.., **{'k': ..}) -> TypeError (multiple values); f(**[..]) -> TypeError (not a mapping): both after all arguments were evaluated
+        explicit = {kw.arg for kw in node.keywords if kw.arg is not None}
+        bad = None
+        for kw in node.keywords:
+            if kw.arg is None and isinstance(kw.value, (ast.List, ast.Tuple, ast.Set)):
+                bad = "not a mapping"
+            if kw.arg is None and isinstance(kw.value, ast.Dict):
+                keys = {k.value for k in kw.value.keys if isinstance(k, ast.Constant) and isinstance(k.value, str)}
+                if keys & explicit:
+                    bad = "multiple values for keyword argument"
+        if bad is None:
+            return super().e_Call(node, cfg, out)
+        cur = [c for c, _ in self.ev(node.func, cfg, out)]
+        for a in node.args:
+            cur = [c1 for c in cur for c1, _ in self.ev(a.value if isinstance(a, ast.Starred) else a, c, out)]
+        for kw in node.keywords:
+            cur = [c1 for c in cur for c1, _ in self.ev(kw.value, c, out)]
+        for c in cur:
+            out.add("raise", c.set("$exc", ExcV("TypeError", bad)))
+        return []
 
     def s_AugAssign(self, stmt, cfg):
         out = Out()
